@@ -644,6 +644,8 @@ fn junk_pool(rng: &mut Rng) -> String {
     const J: &[&str] = &[
         "0x10", "1e3", "--", "+-", "é", "foo", ".ra", "ab$rax", "$", "$$rbx", "rbx$", "5$", "-", ".cfa.", ".undefx", "^^",
         "+1+", "1_0", " ", "\t", "\u{c}", "@@", "$.cfa", "٣", "1:", "$rsp$rbp",
+        // not ASCII whitespace: stays inside its token (non-breaking / em / ideographic space, NEL, VT)
+        "8\u{a0}8", "\u{a0}", "4\u{2003}+", "\u{3000}", "8\u{85}", "8\u{b}8", "\u{10000}", "$\u{ff5e}", "+0", "-00", "１",
     ];
     rng.pick(J).to_string()
 }
@@ -1609,17 +1611,27 @@ fn run_walk_stack(a: &Arch, c: &Case) -> Result<String, String> {
     ))
 }
 
-/// the glue around `walk_frame` (see `MdModel.Cfi.stackGlue`), applied to the documented result
-fn glue(c: &Case, st: DocState) -> String {
+/// the glue around `walk_frame` (see `MdModel.Cfi.stackGlue` and the `stack` branch of its `handle`),
+/// applied to the documented result. `st`: (cfa, ra, caller registers) where the registers were
+/// computed with the CFA and the return address stored in the stack-pointer / instruction-pointer
+/// registers first (that is where `CfiStackWalker::set_cfa` / `set_ra` put them, so a rule
+/// labelled `$rsp:` overwrites or clears the value the frame reports).
+fn glue(c: &Case, a: &Arch, st: Option<(u64, u64, Vec<(String, u64)>)>) -> String {
     let Some((_, sp, leaf, strip)) = &c.stack else { return "bad-op".into() };
     let in_stack = !c.mem.is_empty()
         && c.mem_base.checked_add(c.mem.len() as u64 - 1).is_some()
         && *sp >= c.mem_base
         && *sp - c.mem_base < c.mem.len() as u64;
-    let Some((cfa, mut ra, mut regs, _)) = st else { return "nocfi".into() };
+    let Some((cfa0, ra0, mut regs)) = st else { return "nocfi".into() };
     if !in_stack {
         return "nocfi".into();
     }
+    let sp_v = regs.iter().find(|(n, _)| n == a.sp).map(|(_, v)| *v);
+    let ip_v = regs.iter().find(|(n, _)| n == a.ip).map(|(_, v)| *v);
+    regs.retain(|(n, _)| n != a.sp && n != a.ip);
+    // the unwinders read both raw: a cleared register keeps its last value
+    let cfa = sp_v.unwrap_or(cfa0);
+    let mut ra = ip_v.unwrap_or(ra0);
     if let Some(m) = strip {
         ra &= m;
         for (n, v) in regs.iter_mut() {
@@ -1631,7 +1643,23 @@ fn glue(c: &Case, st: DocState) -> String {
     if ra < 4096 || (cfa <= *sp && !(*leaf && cfa == *sp)) {
         return "nocfi".into();
     }
-    show_state(Some(cfa), Some(ra), &regs)
+    show_state(sp_v.map(|_| cfa), ip_v.map(|_| ra), &regs)
+}
+
+/// the documented result of a `stack` case: `doc_expect` once for the CFA and the return address,
+/// then again with the two stored as caller registers
+fn doc_expect_stack(c: &Case, a: &Arch) -> Result<(Option<(u64, u64, Vec<(String, u64)>)>, Option<(u64, u64, Vec<(String, u64)>)>), &'static str> {
+    let pristine = Mock::new(c);
+    let Some((cfa, ra, _, _)) = doc_expect(c, &pristine)? else { return Ok((None, None)) };
+    let mut c2 = c.clone();
+    c2.fwd.retain(|(n, _)| n != a.sp && n != a.ip);
+    c2.fwd.push((a.sp.to_string(), cfa));
+    c2.fwd.push((a.ip.to_string(), ra));
+    let p2 = Mock::new(&c2);
+    match doc_expect(&c2, &p2)? {
+        None => Ok((None, None)),
+        Some((cfa, ra, regs, lenient)) => Ok((Some((cfa, ra, regs)), Some((cfa, ra, lenient)))),
+    }
 }
 
 fn exec_stack(c: &Case) -> ImplResult {
@@ -1670,12 +1698,12 @@ fn exec_stack(c: &Case) -> ImplResult {
     }
     res.tags.push(if res.out == "nocfi" { "stack-result:nocfi".into() } else { "stack-result:cfi-frame".into() });
     res.nontrivial = res.out != "nocfi";
-    let pristine = Mock::new(c);
-    // a rule labelled with the stack or instruction pointer itself is outside what the glue model covers
-    match doc_expect(c, &pristine) {
-        Ok(st) => {
-            let lenient = glue(c, st.clone().map(|(a, b, _, l)| (a, b, l.clone(), l)));
-            let want = glue(c, st);
+    // the CFA and the return address live in the stack-pointer / instruction-pointer registers:
+    // rules labelled with those registers act on them (`doc_expect_stack`)
+    match doc_expect_stack(c, a) {
+        Ok((st, len)) => {
+            let lenient = glue(c, a, len);
+            let want = glue(c, a, st);
             if want != res.out {
                 let class = if res.out == lenient {
                     "reg-neither-set-nor-cleared"
@@ -1762,7 +1790,9 @@ fn gen_stack(rng: &mut Rng) -> String {
     pool.extend(a.alias.iter().map(|(x, _)| x.to_string()));
     pool.push("nosuch".into());
     let gen_other = |c: &Case, rng: &mut Rng| -> String {
-        let n = rng.pick(&pool[..]).clone();
+        // now and then a rule for the stack pointer / instruction pointer register itself: it acts
+        // on the CFA / return address the frame reports (they are stored in those registers)
+        let n = if rng.chance(1, 16) { rng.pick(&[a.sp, a.ip]).to_string() } else { rng.pick(&pool[..]).clone() };
         let mut e = vec![];
         match rng.below(8) {
             0 => e.push(".undef".to_string()),
@@ -1828,7 +1858,7 @@ fn transportable(r: &[u8]) -> bool {
         && !t.starts_with(' ')
         && !t.ends_with(' ')
         && !t.contains("  ")
-        && t.bytes().all(|b| (b == b' ' || b.is_ascii_graphic()) && !matches!(b, b'_' | b';' | b'|' | b','))
+        && t.chars().all(|ch| ch == ' ' || (!ch.is_ascii_control() && !matches!(ch, '_' | ';' | '|' | ',')))
 }
 
 /// the `walk`-engine case with the same context, stack memory, module and STACK CFI records
